@@ -168,6 +168,23 @@ func fromBase64(s []byte) (buf []byte, err error) {
 
 func toBase64(b []byte) string { return base64.StdEncoding.EncodeToString(b) }
 
+// base64Len returns the number of octets that packStringBase64 writes for s. It
+// takes the padding at the end of s into account, so it is exact for the text
+// toBase64 produces. For text that has line breaks in it, which the decoder
+// skips, it is an upper bound.
+func base64Len(s string) int {
+	n := base64.StdEncoding.DecodedLen(len(s))
+	switch {
+	case n < 3:
+		// Too short to hold a padded quantum.
+	case strings.HasSuffix(s, "=="):
+		n -= 2
+	case s[len(s)-1] == '=':
+		n--
+	}
+	return n
+}
+
 // dynamicUpdate returns true if the Rdlength is zero.
 func noRdata(h RR_Header) bool { return h.Rdlength == 0 }
 
